@@ -158,6 +158,10 @@ def world_simplifications(world):
         s = _clone(world)
         s["disk"]["prestate"] = "none"
         yield s
+    if w.get("max_volume_default"):
+        s = _clone(world)
+        s["worklist"]["max_volume_default"] = False
+        yield s
     if w.get("max_volume") != 950:
         s = _clone(world)
         s["worklist"]["max_volume"] = 950
